@@ -7,7 +7,7 @@ pub fn take_diff<T: SizedType>(
     old_skeleton: &StateTreeSkeleton<T>,
     new_skeleton: &StateTreeSkeleton<T>,
 ) -> HashSet<CopyFromPatch> {
-    build_patches_recursive(old_skeleton, new_skeleton, vec![], vec![])
+    build_patches_recursive(old_skeleton, new_skeleton, vec![], vec![]).0
 }
 
 /// Enum representing the result of LCS algorithm
@@ -55,8 +55,8 @@ pub fn lcs_by_score<T>(
         if i > 0 && j > 0 {
             let score = score_fn(&old[i - 1], &new[j - 1]);
 
-            if score > 0.0 {
-                // Likely matched
+            if score > 0.0 && dp[i][j] == dp[i - 1][j - 1] + score {
+                // Matched: this cell of the table was reached through the diagonal
                 results.push(DiffResult::Common {
                     old_index: i - 1,
                     new_index: j - 1,
@@ -101,6 +101,14 @@ fn nodes_match<T: SizedType>(old: &StateTreeSkeleton<T>, new: &StateTreeSkeleton
     }
 }
 
+/// Number of state cells (delay, mem, feed) in a skeleton.
+fn count_cells<T: SizedType>(node: &StateTreeSkeleton<T>) -> usize {
+    match node {
+        StateTreeSkeleton::FnCall(children) => children.iter().map(|c| count_cells(c)).sum(),
+        _ => 1,
+    }
+}
+
 /// Retrieve a node from a Skeleton using a path
 fn get_node_at_path<'a, T: SizedType>(
     skeleton: &'a StateTreeSkeleton<T>,
@@ -124,7 +132,7 @@ fn build_patches_recursive<T: SizedType>(
     new_skeleton: &StateTreeSkeleton<T>,
     old_path: Vec<usize>,
     new_path: Vec<usize>,
-) -> HashSet<CopyFromPatch> {
+) -> (HashSet<CopyFromPatch>, usize) {
     // Retrieve the current node from the path
     let old_node = get_node_at_path(old_skeleton, &old_path).expect("Invalid old_path");
     let new_node = get_node_at_path(new_skeleton, &new_path).expect("Invalid new_path");
@@ -144,13 +152,14 @@ fn build_patches_recursive<T: SizedType>(
             "Size mismatch between matched nodes at old_path {old_path:?} and new_path {new_path:?}"
         );
 
-        return [CopyFromPatch {
+        let patches = [CopyFromPatch {
             src_addr,
             dst_addr,
             size,
         }]
         .into_iter()
         .collect();
+        return (patches, count_cells(old_node));
     }
 
     match (old_node, new_node) {
@@ -161,18 +170,15 @@ fn build_patches_recursive<T: SizedType>(
                 for new_idx in 0..new_children.len() {
                     let child_old_path = [old_path.clone(), vec![old_idx]].concat();
                     let child_new_path = [new_path.clone(), vec![new_idx]].concat();
-                    let patches = build_patches_recursive(
+                    // The score of a pair of children is the number of state cells it carries over,
+                    // so that a fully surviving sibling always outweighs a partial match.
+                    let (patches, cells) = build_patches_recursive(
                         old_skeleton,
                         new_skeleton,
                         child_old_path,
                         child_new_path,
                     );
-                    let score = if patches.is_empty() {
-                        0.0
-                    } else {
-                        patches.len() as f64
-                    };
-                    child_patches_map.push(((old_idx, new_idx), patches, score));
+                    child_patches_map.push(((old_idx, new_idx), patches, cells as f64));
                 }
             }
 
@@ -194,21 +200,23 @@ fn build_patches_recursive<T: SizedType>(
 
             // Collect patches based on LCS results
             let mut c_patches = HashSet::new();
+            let mut c_cells = 0;
             for result in &lcs_results {
                 if let DiffResult::Common {
                     old_index,
                     new_index,
                 } = result
-                    && let Some((_, patches, _)) = child_patches_map
+                    && let Some((_, patches, cells)) = child_patches_map
                         .iter()
                         .find(|((o, n), _, _)| o == old_index && n == new_index)
                 {
                     c_patches.extend(patches.iter().cloned());
+                    c_cells += *cells as usize;
                 }
             }
 
-            c_patches
+            (c_patches, c_cells)
         }
-        _ => HashSet::new(),
+        _ => (HashSet::new(), 0),
     }
 }
